@@ -447,8 +447,9 @@ class NewStyleField(Field, np.lib.mixins.NDArrayOperatorsMixin):
     copy = np.copy
     cumprod = np.cumprod
     cumsum = np.cumsum
+    choose = np.choose
+    diagonal = np.diagonal
     dot = np.dot
-    flatten = np.ravel
     max = np.max
     mean = np.mean
     min = np.min
@@ -456,14 +457,53 @@ class NewStyleField(Field, np.lib.mixins.NDArrayOperatorsMixin):
     prod = np.prod
     ravel = np.ravel
     repeat = np.repeat
-    reshape = np.reshape
     round = np.round
+    searchsorted = np.searchsorted
     squeeze = np.squeeze
     std = np.std
     sum = np.sum
+    swapaxes = np.swapaxes
+    take = np.take
     trace = np.trace
-    transpose = np.transpose
     var = np.var
+
+    def reshape(self, *shape, **kwargs):
+        # Support both reshape((a, b)) and reshape(a, b), like ndarray.reshape().
+        if len(shape) == 1:
+            shape = shape[0]
+
+        return np.reshape(self, shape, **kwargs)
+
+    def transpose(self, *axes):
+        # Support transpose(), transpose(None), transpose((a, b)) and transpose(a, b), like ndarray.transpose().
+        if len(axes) == 0:
+            axes = None
+        elif len(axes) == 1:
+            axes = axes[0]
+
+        return np.transpose(self, axes)
+
+    def flatten(self, order='C'):
+        # Like ndarray.flatten(), this always returns a copy.
+        return Field(self.data.flatten(order), self.grid)
+
+    def item(self, *args):
+        return self.data.item(*args)
+
+    def tolist(self):
+        return self.data.tolist()
+
+    @property
+    def mT(self):
+        return np.matrix_transpose(self)
+
+    @property
+    def itemsize(self):
+        return self.data.itemsize
+
+    @property
+    def nbytes(self):
+        return self.data.nbytes
 
 def is_field(obj):
     '''Check if the object is an HCIPy Field.
